@@ -267,7 +267,7 @@ add, sub, mul = _arith("add"), _arith("sub"), _arith("mul")
 def div(I, a, b):
     a, b = lift(a), lift(b)
     idx, hyps = b.generic_index("dv")
-    I.ctx.safety("div", zreal(b.at(idx)) != 0, hyps, "divisor non-zero")
+    I.ctx.safety("div", zreal(b.at(idx)) != 0, hyps, "divisor non-zero", index=idx, shape=list(b.shape))
     return ew2(I, a, b, lambda x, y: zreal(x) / zreal(y), "real")
 
 
